@@ -111,6 +111,7 @@ static int g_argc;
 static char **g_argv;
 static int verbose;
 static int ignore_abnormal;
+static int scan_stderr;
 static char errfile[256];
 static const char *rundir = "/verif/build/run";
 
@@ -441,6 +442,76 @@ static void read_err(char *dst, size_t max)
 	close(fd);
 }
 
+/* collect the sanitizer's own summary lines (all distinct ones, up to 4) as the finding's identity;
+ * a race on a global carries the global's name */
+static int summarise_sanitizer(char *dst, size_t max)
+{
+	static char eb[ERRMAX];
+	static char lines[4][400];
+	char *p = eb;
+	int n = 0, i, o = 0;
+	read_err(eb, ERRMAX);
+	while (n < 4) {
+		char *blk = p, *sum = strstr(p, "SUMMARY: "), *q, *loc, tmp[400];
+		int dup = 0;
+		if (!sum)
+			break;
+		q = strchr(sum, '\n');
+		if (q)
+			*q = 0;
+		/* the report this summary belongs to starts at the last "WARNING:" / "ERROR:" before it */
+		*sum = 0;
+		{
+			char *w = blk, *last = NULL;
+			while ((w = strstr(w, "WARNING: ")) != NULL) { last = w; w += 9; }
+			loc = last ? strstr(last, "Location is global '") : NULL;
+		}
+		*sum = 'S';
+		if (loc) {
+			char *e = strchr(loc + 20, '\'');
+			char nm[80];
+			int l = e ? (int)(e - (loc + 20)) : 0;
+			if (l > 79) l = 79;
+			memcpy(nm, loc + 20, l);
+			nm[l] = 0;
+			snprintf(tmp, sizeof(tmp), "%.300s [global %s]", sum, nm);
+		} else {
+			snprintf(tmp, sizeof(tmp), "%.380s", sum);
+		}
+		for (i = 0; i < n; i++)
+			if (!strcmp(lines[i], tmp))
+				dup = 1;
+		if (!dup)
+			strcpy(lines[n++], tmp);
+		if (!q)
+			break;
+		p = q + 1;
+	}
+	if (!n) {
+		p = strstr(eb, "runtime error:");
+		if (p) {
+			char *q = strchr(p, '\n');
+			if (q)
+				*q = 0;
+			snprintf(lines[n++], 400, "%.380s", p);
+		}
+	}
+	if (!n)
+		return 0;
+	for (i = 0; i < n; i++) {
+		int j;
+		for (j = i + 1; j < n; j++)
+			if (strcmp(lines[j], lines[i]) < 0) {
+				char t[400];
+				strcpy(t, lines[i]); strcpy(lines[i], lines[j]); strcpy(lines[j], t);
+			}
+	}
+	dst[0] = 0;
+	for (i = 0; i < n && o < (int)max - 8; i++)
+		o += snprintf(dst + o, max - o, "%s%s", i ? " || " : "", lines[i]);
+	return n;
+}
+
 /* run one execution with the prefix in XB; returns classification:
  * 1 ok, 2 violation (rule/msg filled), 3 diverge, 4 broken */
 static int run_one(void)
@@ -486,6 +557,17 @@ static int run_one(void)
 	}
 	if (WIFEXITED(st)) {
 		int c = WEXITSTATUS(st);
+		if (scan_stderr && (c == MC_EXIT_OK || c == MC_EXIT_VIOL)) {
+			/* race reports do not stop the execution (halt_on_error=0), so that one known race
+			 * cannot hide a second one: look for them in the captured stderr */
+			static char sm[MSGMAX];
+			if (summarise_sanitizer(sm, MSGMAX)) {
+				snprintf((char *)XB->rule, sizeof(XB->rule), "sanitizer");
+				snprintf((char *)XB->msg, MSGMAX, "%s", sm);
+				XB->verdict = 2;
+				return 2;
+			}
+		}
 		if (c == MC_EXIT_OK && XB->verdict == 1)
 			return 1;
 		if (c == MC_EXIT_VIOL && XB->verdict == 2)
@@ -498,29 +580,11 @@ static int run_one(void)
 			if (!XB->rule[0])
 				snprintf((char *)XB->rule, sizeof(XB->rule), "sanitizer");
 			if (!XB->msg[0]) {
-				/* identify the finding by the sanitizer's own summary / first diagnostic line */
-				static char eb[ERRMAX];
-				char *p, *q, *loc;
-				read_err(eb, ERRMAX);
-				p = strstr(eb, "SUMMARY: ");
-				if (!p)
-					p = strstr(eb, "runtime error:");
-				if (p) {
-					q = strchr(p, '\n');
-					if (q)
-						*q = 0;
-					loc = strstr(eb, "Location is global '");
-					if (loc) {
-						char *e = strchr(loc + 20, '\'');
-						if (e)
-							*e = 0;
-						snprintf((char *)XB->msg, MSGMAX, "%s [global %s]", p, loc + 20);
-					} else {
-						snprintf((char *)XB->msg, MSGMAX, "%s", p);
-					}
-				} else {
+				static char sm[MSGMAX];
+				if (summarise_sanitizer(sm, MSGMAX))
+					snprintf((char *)XB->msg, MSGMAX, "%s", sm);
+				else
 					snprintf((char *)XB->msg, MSGMAX, "sanitizer report (see stderr excerpt)");
-				}
 			}
 			return 2;
 		}
@@ -860,6 +924,7 @@ int mc_main(int argc, char **argv, const struct mc_harness *h)
 	H = h;
 	verbose = mc_arg_int("verbose", 0);
 	ignore_abnormal = mc_arg_int("abn_ignore", 0);
+	scan_stderr = mc_arg_int("scan_stderr", 0);
 	bound_to = mc_arg_int("bound", 1);
 	bound_from = mc_arg_int("bound_from", bound_to);
 	nworkers = mc_arg_int("workers", 16);
